@@ -68,10 +68,13 @@ Proof.
   - rewrite IHa by exact Hs. reflexivity.
 Qed.
 
+Lemma td_and pnl c a b : td pnl c (TAnd a b) = mkTAnd (td pnl c a) (td pnl c b).
+Proof. cbn [td]. unfold mkTAnd. destruct (is_dead (td pnl c a)); reflexivity. Qed.
+
 Lemma td_indist pnl c1 c2 t :
   (c1 =? 10) = (c2 =? 10) -> same_on (top_classes t) c1 c2 -> td pnl c1 t = td pnl c2 t.
 Proof.
-  intros Hk. induction t as [r|a IHa b IHb|a IHa b IHb|a IHa]; intros Hs; cbn [td top_classes] in *.
+  intros Hk. induction t as [r|a IHa b IHb|a IHa b IHb|a IHa]; intros Hs; rewrite ?td_and; cbn [td top_classes] in *.
   - f_equal. apply d_indist; assumption.
   - rewrite IHa by (eapply same_on_app_l; exact Hs).
     rewrite IHb by (eapply same_on_app_r; exact Hs). reflexivity.
@@ -142,8 +145,88 @@ Proof.
   rewrite PositiveMap.gempty in Hf. discriminate.
 Qed.
 
+(* ---- the derivative depends on the byte only through its front signature ---- *)
+Lemma d_front pnl c1 c2 r :
+  (c1 =? 10) = (c2 =? 10) -> same_on (front pnl (kind c1) r) c1 c2 -> d pnl c1 r = d pnl c2 r.
+Proof.
+  intros Hk. assert (Hkind : kind c1 = kind c2) by (unfold kind; rewrite Hk; reflexivity).
+  induction r as [| | | |s|a IHa b IHb|a IHa b IHb|a IHa mn mx g]; intros Hs; cbn [d front] in *;
+    try reflexivity.
+  - rewrite (Hs s) by (left; reflexivity). reflexivity.
+  - rewrite IHa by (eapply same_on_app_l; exact Hs). rewrite <- Hkind.
+    destruct (nul pnl (kind c1) a); [|reflexivity].
+    rewrite IHb by (eapply same_on_app_r; exact Hs). reflexivity.
+  - rewrite IHa by (eapply same_on_app_l; exact Hs).
+    rewrite IHb by (eapply same_on_app_r; exact Hs). reflexivity.
+  - destruct mx as [[|k]|]; [reflexivity| |]; rewrite IHa by exact Hs; reflexivity.
+Qed.
+
+Lemma td_front pnl c1 c2 t :
+  (c1 =? 10) = (c2 =? 10) -> same_on (tfront pnl (kind c1) t) c1 c2 -> td pnl c1 t = td pnl c2 t.
+Proof.
+  intros Hk. induction t as [r|a IHa b IHb|a IHa b IHb|a IHa]; intros Hs; rewrite ?td_and; cbn [td tfront] in *.
+  - f_equal. apply d_front; assumption.
+  - rewrite IHa by (eapply same_on_app_l; exact Hs).
+    rewrite IHb by (eapply same_on_app_r; exact Hs). reflexivity.
+  - rewrite IHa by (eapply same_on_app_l; exact Hs).
+    rewrite IHb by (eapply same_on_app_r; exact Hs). reflexivity.
+  - rewrite IHa by exact Hs. reflexivity.
+Qed.
+
+Lemma lbool_eqb_eq a : forall b, lbool_eqb a b = true -> a = b.
+Proof.
+  induction a as [|x a IH]; intros [|y b] H; cbn in H; try discriminate; [reflexivity|].
+  apply andb_prop in H as [H1 H2]. apply Bool.eqb_prop in H1. subst. f_equal. auto.
+Qed.
+
+Lemma map_cmem_same fr c1 c2 : map (cmem c1) fr = map (cmem c2) fr -> same_on fr c1 c2.
+Proof.
+  induction fr as [|s fr IH]; intros H x Hx; [contradiction|]. cbn in H. inversion H as [[H1 H2]].
+  destruct Hx as [E|Hx]; [subst; exact H1|]. apply IH; assumption.
+Qed.
+
+Lemma csig_step q c1 c2 :
+  csig (qfront q c1) c1 = csig (qfront q c2) c2 -> step q c1 = step q c2.
+Proof.
+  unfold csig. intros H. inversion H as [[Hk Hm]].
+  assert (Hkind : kind c1 = kind c2) by (unfold kind; rewrite Hk; reflexivity).
+  unfold step. rewrite Hk. f_equal. apply td_front; [exact Hk|].
+  unfold qfront in Hm. rewrite <- Hkind in Hm. apply map_cmem_same. exact Hm.
+Qed.
+
+Lemma assoc_sig_In sg memo j : assoc_sig sg memo = Some j -> In (sg, j) memo.
+Proof.
+  induction memo as [|[s i] memo IH]; cbn; [discriminate|].
+  destruct (lbool_eqb s sg) eqn:E.
+  - intros H. inversion H. subst. apply lbool_eqb_eq in E. subst. left. reflexivity.
+  - intros H. right. apply IH. exact H.
+Qed.
+
+(* every atom of a checked row has its (representative's) successor in the map *)
+Lemma row_chk_sound m q : forall atoms succ memo,
+  (forall sg j, In (sg, j) memo -> exists c0, csig (qfront q c0) c0 = sg /\ wfind m j = Some (step q c0)) ->
+  row_chk m q atoms succ memo = true ->
+  forall a, In a atoms -> exists i, wfind m i = Some (step q (fst a)).
+Proof.
+  induction atoms as [|a0 atoms IH]; intros succ memo Hmemo H a Ha; [contradiction|].
+  destruct succ as [|i succ]; [discriminate|]. cbn [row_chk] in H.
+  destruct (assoc_sig (csig (qfront q (fst a0)) (fst a0)) memo) as [j|] eqn:Ea.
+  - apply andb_prop in H as [Hij H]. apply Pos.eqb_eq in Hij. subst j.
+    destruct Ha as [E|Ha].
+    + subst a0. apply assoc_sig_In in Ea. destruct (Hmemo _ _ Ea) as [c0 [Hsig Hf]].
+      exists i. rewrite Hf. f_equal. apply csig_step. exact Hsig.
+    + exact (IH succ memo Hmemo H a Ha).
+  - destruct (wfind m i) as [q'|] eqn:Ef; [|discriminate].
+    apply andb_prop in H as [He H]. apply state_eqb_eq in He.
+    destruct Ha as [E|Ha].
+    + subst a0. exists i. rewrite Ef, He. reflexivity.
+    + refine (IH succ _ _ H a Ha). intros sg j [E|Hin].
+      * inversion E. subst. exists (fst a0). split; [reflexivity|]. exact Ef.
+      * exact (Hmemo sg j Hin).
+Qed.
+
 Section Sound.
-  Variables (CL : list cset) (atoms : list atom) (W : list state) (tr : list (list nat)).
+  Variables (CL : list cset) (atoms : list atom) (W : list state) (tr : list (list positive)).
   Hypothesis Hcert : closed_cert CL atoms W tr = true.
 
   Lemma cert_parts :
@@ -166,8 +249,8 @@ Section Sound.
   Proof.
     intros Hq Hc. destruct cert_parts as (Hat & _ & Hrows).
     destruct (in_W_row q Hq) as [succ Hrow]. specialize (Hrows q succ Hrow).
-    unfold row_ok in Hrows. apply andb_prop in Hrows as [H Hsucc]. apply andb_prop in H as [H Hlen].
-    apply andb_prop in H as [Hacc Hcl]. apply Nat.eqb_eq in Hlen.
+    unfold row_ok in Hrows. apply andb_prop in Hrows as [H Hsucc].
+    apply andb_prop in H as [Hacc Hcl].
     split; [|apply Bool.negb_true_iff; exact Hacc].
     (* find the atom of c *)
     unfold atoms_ok in Hat. apply andb_prop in Hat as [Hind Hcov].
@@ -175,13 +258,9 @@ Section Sound.
     apply existsb_exists in Hcov as [a [Ha Hm]]. apply mem_In in Hm.
     rewrite forallb_forall in Hind. specialize (Hind a Ha). rewrite forallb_forall in Hind.
     specialize (Hind c Hm). apply indist_spec in Hind as [Hk Hsame].
-    (* the successor claimed for that atom *)
-    assert (Hex : exists i, In (a, i) (combine atoms succ))
-      by (apply in_combine_ex; [symmetry; exact Hlen|exact Ha]).
-    destruct Hex as [i Hi]. rewrite forallb_forall in Hsucc. specialize (Hsucc (a, i) Hi).
-    cbn [fst snd] in Hsucc.
-    destruct (wfind (build_map W 1%positive (PositiveMap.empty state)) i) as [q'|] eqn:En; [|discriminate].
-    apply state_eqb_eq in Hsucc. apply wfind_In in En. rewrite <- Hsucc in En.
+    (* the successor recorded for that atom *)
+    destruct (row_chk_sound _ q atoms succ [] (fun sg j (F : In (sg, j) []) => match F with end) Hsucc a Ha) as [i En].
+    apply wfind_In in En.
     (* step q c = step q (rep a) *)
     assert (Es : step q c = step q (fst a)).
     { unfold step. rewrite <- Hk. f_equal. symmetry. apply td_indist; [exact Hk|].
